@@ -16,7 +16,8 @@ def predicate_class(crate, fn_path):
     f = crate.fn(fn_path)
     if f is None:
         return None
-    S = sim.Sim([crate], inline=lambda a, b: b.crate == crate.name and b.arg_count == 1 and b.local_ty(0) == "bool")
+    # byte predicates are looked through down to their tables: `is_delimiter(c)` may be `has_class(c, DELIMITER)`
+    S = sim.Sim([crate], inline=lambda a, b: b.crate == crate.name and lex.scalar_fn(b))
     out = set()
     for b in range(256):
         rets = {repr(p.ret) for p in S.run(f, args={1: b}) if p.end == "return"}
@@ -139,3 +140,70 @@ def comment_end_classes(crate, starter):
         else:
             raise Inexact("comment body: byte %s has outcomes %s" % (lex.fmt_bytes([d]), kinds))
     return ends, goes, eof
+
+
+def delimiter_classes(crate, note=None):
+    """Token-end classes besides the symbol scanners': the two named delimiter predicates, where they exist as
+    functions, and - independent of how the lexer spells the test - the set of bytes after which a number token
+    is complete (parse_token evaluated on `1` followed by each byte value)."""
+    out = {}
+    for name, fp in (("parse::is_delimiter", "parse::is_delimiter"), ("read::is_delimiter", "parse::read::is_delimiter")):
+        pc = predicate_class(crate, fp)
+        if pc is None:
+            if note:
+                note("%s is not a function of its own any more; the number-end class below covers its role" % fp)
+            continue
+        out[(name, fp)] = pc
+    pt = crate.fn("parse::Parser::<R>::parse_token")
+    if pt is not None:
+        ends = number_end_class(crate, pt)
+        if ends is not None:
+            out[("the end of a number token", pt.path)] = ends
+    return out
+
+
+def number_end_class(crate, pt):
+    """Bytes (None = end of input) after which parse_token accepts a decimal literal as a complete number: the
+    numeric routine's result is taken as given, every read after it delivers the byte under test."""
+    from . import facts as F
+    from .sim import Opq
+    tok = crate.variant_names("parse::Token")
+    ends = set()
+    for d in DOM:
+        def hook(S, fn, bb, t, args, path, d=d):
+            nm = F.callee_names(t)
+            if any(n.endswith("parse_num_literal") or n.endswith("parse_radix_literal") for n in nm):
+                path.events.append(("number-parsed",))
+                return ("skip", Adt("std::result::Result", 0, [Opq("number")]))
+            if lex.is_read_call(nm):
+                if any(e[0] == "number-parsed" for e in path.events):
+                    return ("value", lex.ok(lex.some(d) if d is not None else lex.none()))
+                return ("value", lex.ok(lex.some(0x31)))
+            return None
+
+        def opaque(o):
+            if "options" in o.path and "leading_digit_symbols" in o.path:
+                return 0
+            return None
+
+        S = sim.Sim([crate], hooks={"call": hook, "opaque": opaque}, inline=lex.helper_inline(crate),
+                    max_paths=5000, max_depth=4)
+        outs = set()
+        try:
+            for p in S.run(pt, args={2: 0x31}):
+                if p.end != "return" or not any(e[0] == "number-parsed" for e in p.events):
+                    continue
+                rv = p.ret
+                if isinstance(rv, Adt) and rv.variant == 0 and isinstance(rv.fields[0], Adt) and rv.fields[0].variant < len(tok):
+                    outs.add(tok[rv.fields[0].variant])
+                elif isinstance(rv, Adt) and rv.variant == 1:
+                    outs.add("Err")
+                else:
+                    outs.add("?")
+        except sim.Limit:
+            raise Inexact("parse_token: path limit while evaluating the end of a number before %s" % lex.fmt_bytes([d]))
+        if outs == {"Number"}:
+            ends.add(d)
+        elif outs != {"Err"}:
+            raise Inexact("parse_token: a decimal literal followed by %s gives %s" % (lex.fmt_bytes([d]), sorted(outs)))
+    return ends
